@@ -47,16 +47,15 @@ Proof.
   - apply sg_set_root.
   - destruct (hget (st_heap st) a) as [[s|l|m]|]; first [apply sg_with_heap | apply sg_set_ub].
   - destruct (hget (st_heap st) a) as [[s|l|m]|]; first [apply sg_with_heap | apply sg_set_ub].
-  - set (cont := if isl then _ else _).
-    destruct copied.
-    + destruct cont; cbn [fst]; [apply sg_cow_write|apply sg_set_ub].
-    + match goal with |- context[alloc st ?n] => set (node := n) end.
-      destruct (alloc st node) as [a' st1] eqn:Ea.
-      specialize (IH st1 (Some a')).
-      destruct (set_item st1 p (Some a')) as [st2 p'] eqn:Es. cbn [fst] in *.
-      eapply sg_trans; [|apply sg_cow_write].
-      eapply sg_trans; [|exact IH].
-      pose proof (sg_alloc st node) as H. now rewrite Ea in H.
+  - destruct copied as [ca|]; [cbn [fst]; apply sg_cow_write|].
+    set (cont := if isl then _ else _).
+    match goal with |- context[alloc st ?n] => set (node := n) end.
+    destruct (alloc st node) as [a' st1] eqn:Ea.
+    specialize (IH st1 (Some a')).
+    destruct (set_item st1 p (Some a')) as [st2 p'] eqn:Es. cbn [fst] in *.
+    eapply sg_trans; [|apply sg_cow_write].
+    eapply sg_trans; [|exact IH].
+    pose proof (sg_alloc st node) as H. now rewrite Ea in H.
 Qed.
 
 (* tactic: peel one state-producing step *)
